@@ -768,6 +768,24 @@ class Ctx:
     def call(self, fname, args):
         prog = self.program
         f = prog.funcs.get(fname)
+        if f is None and fname.endswith(">"):
+            # call of a generic function: `path::name::<Args>` → definition `…name`
+            base = fname
+            depth = 0
+            for i in range(len(fname) - 1, -1, -1):
+                if fname[i] == ">":
+                    depth += 1
+                elif fname[i] == "<":
+                    depth -= 1
+                    if depth == 0:
+                        base = fname[:i]
+                        break
+            if base.endswith("::"):
+                base = base[:-2]
+                cands = [n for n in prog.funcs if n == base or n.endswith("::" + base) or base.endswith("::" + n)]
+                if len(cands) == 1:
+                    fname = cands[0]
+                    f = prog.funcs[fname]
         if f is None:
             alt = prog.resolve_call(fname)
             if alt is not None:
